@@ -42,6 +42,9 @@ class RoadEdge(DirectedEdge):
     def __init__(self, origin=None, destination=None, *, uid=None, attributes=None):
         super().__init__(origin, destination, uid=uid, attributes=attributes)
 
+class BiEdge(UnDirectedEdge, DirectedEdge):
+    """an edge type that derives from both stock edge types (legal: "subclasses of either")"""
+
 class OtherTE(TwoEndedLink):
     """a two-ended link type that is neither directed nor undirected ("unknown type")"""
 
